@@ -263,9 +263,14 @@ impl<T: Qcow2IoOps> Qcow2Dev<T> {
             }
         };
 
-        if let Some(lock) = cluster_lock {
+        if let Some(mut lock) = cluster_lock {
             if let Some(df) = discard {
-                df.await?
+                if let Err(err) = df.await {
+                    // not zeroed: whoever gets to this cluster next has to
+                    // do it
+                    *lock = false;
+                    return Err(err);
+                }
             }
 
             let cow_res = match cow_mapping {
